@@ -122,7 +122,7 @@ def handle (tbl : CharTable) (f : List String) (impl : String) : Option (String 
     let cols ← cols.toNat?
     if cols < 2 then none
     let flags := if flags == "-" then "" else flags
-    if !(flags.toList.all (fun c => "tplBsr".toList.contains c)) then none
+    if !(flags.toList.all (fun c => "tplBsrw".toList.contains c)) then none
     let hist ← parseTexts hist
     let left ← parseText left
     let right ← parseText right
